@@ -78,6 +78,45 @@ def run_unit(unit, rlimit=None):
     # retry on resource problems with 4x rlimit
     if ur.run.resource and not rlimit:
         ur.run = run_verus(path, 40)
+    # stability: a function that fails in the whole-file run is re-verified alone (fresh solver context, 2x rlimit);
+    # only a failure that persists in isolation is believed (context-dependent "unknown"s are not verdicts)
+    ur.unstable = []
+    failed = [f['function'].split('::', 1)[1] for f in ur.run.functions if not f['success'] and '::' in f['function']]
+    if failed and not ur.run.compile_errors and not ur.run.resource:
+        def iso(fn):
+            return fn, run_verus(path, 20, 10, 900, True, ('--verify-root', '--verify-function', fn))
+        with cf.ThreadPoolExecutor(min(8, len(failed))) as ex:
+            iso_runs = dict(ex.map(iso, failed))
+        lines = text.split('\n')
+        kept = []
+        for f in ur.run.failures:
+            own_line = None
+            for s in f.get('spans', []):
+                if s.get('file') and os.path.basename(s['file']) == unit + '.rs':
+                    o = lmap.get(s['line_start'])
+                    if o and o['k'] == 'src':
+                        own_line = s['line_start']
+                        break
+            if own_line is None:
+                ours = [s for s in f.get('spans', []) if s.get('file') and os.path.basename(s['file']) == unit + '.rs']
+                own_line = (ours[-1]['line_start'] if f['kind'] == 'ensures' else ours[0]['line_start']) if ours else f['line']
+            ur.u = u
+            fn, _ = owner_of(ur, own_line, lines)
+            if fn in iso_runs:
+                continue    # replaced by the isolated verdict below
+            kept.append(f)
+        for fn, r in iso_runs.items():
+            if r.compile_errors or r.resource or not r.results:
+                ur.run.resource.append({'message': 'isolated re-verification of %s inconclusive: %s' % (fn, (r.compile_errors or r.resource or [{'message': 'no result'}])[0]['message'][:200]), 'line': 0})
+                continue
+            if not r.failures:
+                ur.unstable.append(fn)
+                for fb in ur.run.functions:
+                    if fb['function'].split('::', 1)[-1] == fn:
+                        fb['success'] = True
+                        fb['note'] = 'verified in isolation (failed only in whole-file solver context)'
+            kept.extend(r.failures)
+        ur.run.failures = kept
     ur.wall_s = time.time() - ur.t0
     _unit_cache[(unit, rlimit)] = ur
     return ur
